@@ -1466,6 +1466,12 @@ class CodeGenerator(NodeVisitor):
         will be evaluated at runtime. Any other exception will also be
         evaluated at runtime for easier debugging.
         """
+        # Whether to escape is only known at runtime in a volatile frame
+        # (``{% autoescape expr %}``), so nothing can be escaped, or left
+        # unescaped, ahead of time.
+        if frame.eval_ctx.volatile:
+            raise nodes.Impossible()
+
         const = node.as_const(frame.eval_ctx)
 
         if frame.eval_ctx.autoescape:
